@@ -47,25 +47,25 @@ func (a *AspectEliminationHeuristic) Spec_MethodParameters() interface{} {
 
 func (a *AspectEliminationHeuristic) Spec_ParseParams(dm *model.DecisionMaker) interface{} {
 	var params AspectEliminationHeuristicParams
-	utils.DecodeToStruct(dm.MethodParameters, &params)
+	utils.Spec_DecodeToStruct(dm.MethodParameters, &params)
 	return params
 }
 
 func (a *AspectEliminationHeuristic) Spec_Evaluate(dmp *model.DecisionMakingParams) *model.AlternativesRanking {
 	params := dmp.MethodParameters.(AspectEliminationHeuristicParams)
-	satisfactionLevels := satisfaction_levels.Find(params.Function, params.Params, a.functions)
+	satisfactionLevels := satisfaction_levels.Spec_Find(params.Function, params.Params, a.functions)
 	satisfactionLevels.Initialize(dmp)
 	generator := a.generator(params.RandomSeed)
-	alternatives := limited_rationality.OrderAlternatives(params.RandomAlternativesOrdering, &dmp.ConsideredAlternatives, generator)
-	weights := sortCriteria(dmp, params, generator)
-	leftToChoice, result, resultIds, thresholdIndex := checkWithinSatisfactionLevels(weights, alternatives, satisfactionLevels)
-	fillRemainingAlternatives(leftToChoice, thresholdIndex, result, resultIds)
-	ranking := limited_rationality.PrepareSequentialRanking(result, resultIds)
+	alternatives := limited_rationality.Spec_OrderAlternatives(params.RandomAlternativesOrdering, &dmp.ConsideredAlternatives, generator)
+	weights := Spec_sortCriteria(dmp, params, generator)
+	leftToChoice, result, resultIds, thresholdIndex := Spec_checkWithinSatisfactionLevels(weights, alternatives, satisfactionLevels)
+	Spec_fillRemainingAlternatives(leftToChoice, thresholdIndex, result, resultIds)
+	ranking := limited_rationality.Spec_PrepareSequentialRanking(result, resultIds)
 	return &ranking
 }
 
 func Spec_sortCriteria(dmp *model.DecisionMakingParams, params AspectEliminationHeuristicParams, generator utils.ValueGenerator) model.WeightedCriteria {
-	weights := *dmp.Criteria.ZipWithWeights(&params.Weights)
+	weights := *dmp.Criteria.Spec_ZipWithWeights(&params.Weights)
 	sort.Slice(weights, func(i, j int) bool {
 		w1, w2 := weights[i], weights[j]
 		if w1.Weight != w2.Weight {
@@ -94,12 +94,12 @@ thresholds:
 		thresholdIndex++
 		t := satisfactionLevels.Next()
 		for _, c := range criteria {
-			tempAlternatives := *model.CopyAlternatives(&leftToChoice)
+			tempAlternatives := *model.Spec_CopyAlternatives(&leftToChoice)
 			for _, a := range leftToChoice {
-				if isBellowThreshold(&a, &t, &c.Criterion) {
-					tempAlternatives = model.RemoveAlternative(tempAlternatives, a)
-					threshold := makeWeightPair(&t, &c.Criterion)
-					resultInsertIndex = updateResult(result, resultInsertIndex, a, thresholdIndex, resultIds, &threshold)
+				if Spec_isBellowThreshold(&a, &t, &c.Criterion) {
+					tempAlternatives = model.Spec_RemoveAlternative(tempAlternatives, a)
+					threshold := Spec_makeWeightPair(&t, &c.Criterion)
+					resultInsertIndex = Spec_updateResult(result, resultInsertIndex, a, thresholdIndex, resultIds, &threshold)
 				}
 				if len(tempAlternatives) <= 1 {
 					leftToChoice = tempAlternatives
@@ -119,7 +119,7 @@ func Spec_makeWeightPair(weights *model.Weights, criterion *model.Criterion) mod
 }
 
 func Spec_isBellowThreshold(a *model.AlternativeWithCriteria, thresholds *model.Weights, criterion *model.Criterion) bool {
-	return a.CriterionValue(criterion) < (*thresholds)[criterion.Id]*float64(criterion.Multiplier())
+	return a.Spec_CriterionValue(criterion) < (*thresholds)[criterion.Id]*float64(criterion.Spec_Multiplier())
 }
 
 func Spec_updateResult(
@@ -151,7 +151,7 @@ func Spec_fillRemainingAlternatives(
 		thresholdIndex += 1
 		lowestThresholds := make(model.Weights, 0)
 		for i, a := range leftToChoice {
-			updateResult(result, i, a, thresholdIndex, resultIds, &lowestThresholds)
+			Spec_updateResult(result, i, a, thresholdIndex, resultIds, &lowestThresholds)
 		}
 	}
 }
